@@ -55,8 +55,11 @@ type kptrace struct {
 	h           *verifHandler
 	waits       int
 	lastPid     int
-	idleAfter   bool       // after the script the program just runs (no events) until it is killed
-	script      []scriptEv // when set, events follow this script instead of being chosen symbolically
+	idleAfter   bool         // after the script the program just runs (no events) until it is killed
+	script      []scriptEv   // when set, events follow this script instead of being chosen symbolically
+	ru          *unix.Rusage // when set: the usage wait4 reports for the main process
+	lastWs      uint32       // wait status of the last event reported
+	lastMain    bool
 }
 
 type scriptEv struct {
@@ -102,6 +105,9 @@ func (k *kptrace) wait4(pid int, wstatus *unix.WaitStatus, options int, rusage *
 	}
 	if rusage != nil {
 		*rusage = unix.Rusage{}
+		if k.ru != nil && (pid == k.pgid || pid == -k.pgid) {
+			*rusage = *k.ru
+		}
 	}
 	// collect zombies after a group kill
 	if k.groupKilled {
@@ -208,6 +214,7 @@ func (k *kptrace) wait4(pid int, wstatus *unix.WaitStatus, options int, rusage *
 		sym.Assume(false)
 	}
 	*wstatus = unix.WaitStatus(ws)
+	k.lastWs, k.lastMain = ws, main
 	return p.pid, nil
 }
 
